@@ -114,9 +114,11 @@ C17_Unique(S) ==
 -----------------------------------------------------------------------------
 (* C18 - charging queues are first-come first-served.  Evaluated on a vehicle update of v: a grant made  *)
 (* by the simulator's default transition out of the queue.  VLess is the id order (Python str order).    *)
+\* ... on a plug of the station it was queueing at: at the station itself, or through a base that station serves
 Grant(S, T, v) ==
-  /\ S.veh[v].act = "ChargeQueueing" /\ T.veh[v].act = "ChargingStation"
-  /\ T.veh[v].tgt = S.veh[v].tgt /\ T.veh[v].plug = S.veh[v].plug
+  /\ S.veh[v].act = "ChargeQueueing" /\ T.veh[v].plug = S.veh[v].plug
+  /\ \/ (T.veh[v].act = "ChargingStation" /\ T.veh[v].tgt = S.veh[v].tgt)
+     \/ (T.veh[v].act = "ChargingBase" /\ BaseStation(T, T.veh[v].tgt) = S.veh[v].tgt)
 StillWaiting(S, T, w, s, p) ==
   /\ S.veh[w].act = "ChargeQueueing" /\ S.veh[w].tgt = s /\ S.veh[w].plug = p
   /\ T.veh[w].act = "ChargeQueueing" /\ T.veh[w].tgt = s /\ T.veh[w].plug = p
